@@ -85,6 +85,12 @@ Proof. exact numeric_cells_compare_as_numbers. Qed.
 Print Assumptions C01_numeric_cells.
 
 (** D1 (open finding): lt/below/before answer <= ; D2 (fixed in /repo): CSV cells compared as strings *)
+(** a bare variable as a condition holds exactly when the variable holds something other than None (0, 0.0 and "" exist) *)
+Theorem C01_bare_variable : forall q bl s l v,
+  beval q bl s l (BVarSet v) = match lookup v (vars (x mx s)) with Some VNone | None => false | Some _ => true end.
+Proof. reflexivity. Qed.
+Print Assumptions C01_bare_variable.
+
 Theorem C01_lt_is_le_refuted : cmp_num (mkQ true false false) Lt 10 10 = true /\ cmp_num clean Lt 10 10 = false.
 Proof. exact lt_is_le_refuted. Qed.
 Print Assumptions C01_lt_is_le_refuted.
